@@ -198,3 +198,11 @@ Proof.
   assert (In u (seq 0 (length s))) by (apply in_seq; lia). specialize (Hall H0). discriminate.
 Qed.
 Print Assumptions ordered_commands_never_deadlock.
+
+(* corollary: commands that lock at most one key - readers and writers in any mix - never deadlock *)
+Corollary single_key_commands_never_deadlock ps sched :
+  Forall (fun p => length p <= 1) ps -> deadlocked (run sched (start ps)) = false.
+Proof.
+  intro H. apply ordered_commands_never_deadlock. eapply Forall_impl; [|exact H].
+  intros p Hp. destruct p as [|a [|b r]]; cbn in Hp; [constructor|constructor; constructor|lia].
+Qed.
